@@ -112,6 +112,10 @@ def run(tier, replay=None):
             cases.append(dict(kind="skeleton", src=c["id"], toks=[], text=render.program(_json.loads(_json.dumps(c["prog"]["body"])))))
     # boundary expressions x syntactic contexts, import path shapes x forms x placements (GenTotal.tla, exhaustive)
     tot, gt = gen.run_generator("GenTotal", work / "total", dict(), timeout=600)
+    # the context programs are only meaningful if their common prologue compiles
+    pro = observe(binary, C.fresh_dir(work / "prologue"), "\n".join(tot[0]["prologue"]) + "\nprint 1\n")
+    if pro["cls"] != "ok" or pro["exit"] != 0:
+        raise C.ToolError(f"GenTotal prologue does not compile: {pro}")
     for c in tot:
         cases.append(dict(kind="form:" + c["kind"], src=c["id"], toks=[], text="\n".join(c["lines"]) + "\n", lib=bool(c["lib"])))
     # plus the untouched corpus and its token-joined form
